@@ -67,7 +67,7 @@ Fixpoint ssat (P : leaf T -> Prop) (s : sexpr T) : Prop :=
   | SConst _ _ | SZero _ => True
   | SAdd a b | SSub a b | SMul a b | SPtw a b => ssat P a /\ ssat P b
   | SNeg a | SPow a _ | SAddV a _ | SVAdd _ a | SSubV a _ | SVSub _ a | SMulV a _ | SVMul _ a
-  | SAddC a _ | SCAdd _ a | SSubC a _ | SCSub _ a | SMulC a _ | SCMul _ a | SDivC a _ => ssat P a
+  | SAddC a _ | SCAdd _ a | SSubC a _ | SCSub _ a | SMulC a _ _ | SCMul _ a | SDivC a _ _ => ssat P a
   end.
 
 (* side condition on leaves that return their input: they are the identity on their domain *)
@@ -329,13 +329,14 @@ Proof.
   - destruct (c =? nzero); [intros E; inversion E; exact I | apply mkLScal_sat; exact S].
   - apply mkLScal_sat; exact S.
 Qed.
-Lemma mul_c_sat (a : oexpr T) c o : osat P a -> mul_c vt a c = Ok o -> osat P o.
+Lemma mul_c_sat (a : oexpr T) c rl o : osat P a -> mul_c vt a c rl = Ok o -> osat P o.
 Proof.
   unfold mul_c, mkFLScal, mkFRScal. intros S. destruct (ofunc a).
   - destruct (c =? nzero); [intros E; inversion E; exact I|].
     destruct (olin vt a); [apply mkLScal_sat | apply mkRScal_sat]; exact S.
-  - assert (G : (if olin vt a then rmul_c a c else mkRScal false a c) = Ok o -> osat P o)
-      by (destruct (olin vt a); [apply rmul_c_sat | apply mkRScal_sat]; exact S).
+  - assert (G : (if olin vt a && (rl || negb (v_real_shortcut vt)) then rmul_c a c else mkRScal false a c) = Ok o
+                -> osat P o)
+      by (destruct (olin vt a && (rl || negb (v_real_shortcut vt))); [apply rmul_c_sat | apply mkRScal_sat]; exact S).
     destruct a; try exact G. apply mkRScal_sat. exact S.
 Qed.
 Lemma mkSum_sat fn (a b : oexpr T) o : osat P a -> osat P b -> mkSum fn a b = Ok o -> osat P o.
@@ -394,9 +395,9 @@ Proof.
   - apply (add_c_sat _ _ _ (IHa _ S eq_refl) E).
   - apply (add_c_sat _ _ _ (IHa _ S eq_refl) E).
   - apply (add_c_sat _ _ _ (rmul_c_sat _ _ _ (IHa _ S eq_refl) B0) E).
-  - apply (mul_c_sat _ _ _ (IHa _ S eq_refl) E).
+  - apply (mul_c_sat _ _ _ _ (IHa _ S eq_refl) E).
   - apply (rmul_c_sat _ _ _ (IHa _ S eq_refl) E).
-  - destruct (c =? nzero); [discriminate|]. apply (mul_c_sat _ _ _ (IHa _ S eq_refl) E).
+  - destruct (c =? nzero); [discriminate|]. apply (mul_c_sat _ _ _ _ (IHa _ S eq_refl) E).
   - destruct S as [Sa Sb]. unfold mkPtw in E.
     destruct (sp_eqb (oran o0) (oran o1)); cbn [negb] in E; [|discriminate].
     destruct (sp_eqb (odom o0) (odom o1)); cbn [negb] in E; [|discriminate]. inversion E.
